@@ -9,6 +9,7 @@ Sections
 """
 import copy
 import itertools
+import re
 
 from pylatexenc.latex2text import LatexNodes2Text
 from pylatexenc.latexencode import UnicodeToLatexEncoder
@@ -30,6 +31,7 @@ MATHS = ["$x$", "$\\alpha_1$", "$a+b$", "$\\frac{1}{2}$"]
 WIDE = LETTERS + DIGITS + ACCENTED + PUNCT + SPECIALS + URLS + MATHS
 # one or two representatives of every encoding shape, every punctuation mark and every TeX special
 EXH = ["a", "Z", "1", "é", "ü", "ø", "ç"] + PUNCT + SPECIALS + ["http://a.b/c", "www.x.org", "$x$", "$\\alpha_1$"]
+EXH_QUICK = [t for t in EXH if t not in ("Z", "ç", ";", ":")]
 CORE = ["a", "1", "é", "ø", " ", ".", "!", "?", "-", "'", "/"] + SPECIALS + ["http://a.b/c", "$x$"]
 # sequences for which pylatexenc ALONE (UnicodeToLatexEncoder() / LatexNodes2Text() with default settings) is not injective;
 # verified empirically: every single token of WIDE and every string of <= 3 EXH-like tokens round-trips through pylatexenc alone
@@ -52,12 +54,14 @@ RULE = ("round trip: texts are concatenations of tokens from an alphabet of ASCI
         "NameParts values, @string, preamble, both comments, failed, duplicate-field, duplicate-key and middleware-error blocks) x "
         "every constructor option of either middleware (3x3 option values, a real custom coder, a stub custom coder) x "
         "allow_inplace_modification; contain: stub coders raising four exception kinds (with and without message), always or on a "
-        "trigger substring, on both sides.  non-trivial = non-empty text / library with at least one block; distinct = distinct spec")
-BOUND = {"quick": "ctor: all 36+36 combinations; scope: 8 fixed libraries x 44 configurations + 500 random pairs; round trip: all <= 3-token "
-                  "strings over 32 representative tokens (default options) and all their <= 2-token strings under the 3 other (keep_math, "
+        "trigger substring, on both sides.  A failing round trip is labelled F12-url-raw-specials / F13-keepmath-raw-span only if the text "
+        "has that family's trait (URL match holding a TeX special / two unescaped $ with a TeX special or $ between) AND it passes "
+        "with that rule switched off; everything else stays unclassified.  non-trivial = non-empty text / library with at least one block; distinct = distinct spec")
+BOUND = {"quick": "ctor: all 27+27 combinations; scope: 8 fixed libraries x 44 configurations + 500 random pairs; round trip: all <= 3-token "
+                  "strings over 28 representative tokens (default options) and all <= 2-token strings over 32 representative tokens under the 3 other (keep_math, "
                   "enclose_urls) combinations, all <= 2-token strings over the full 125-token alphabet (default options), NameParts/@string on <= 2 / <= 1 tokens, 2000 random strings of 4..12 tokens; "
                   "contain: 3 fixed libraries x 2 sides x 8 exception kinds x 2 triggers x inplace + 300 random",
-         "thorough": "same + all 4-token strings over a 22-token core alphabet + 20000 random strings + 6000 random scope pairs + 3000 random contain cases"}
+         "thorough": "same with all <= 3-token strings over the 32 representative tokens + all 4-token strings over a 22-token core alphabet + 20000 random strings + 6000 random scope pairs + 3000 random contain cases"}
 
 
 def admissible(tokens):
@@ -274,10 +278,32 @@ def _pylatexenc_alone_roundtrips(text):
         return False
 
 
+TEX_SPECIALS = "~%&#_${}\\"
+_URL_RES = [re.compile(r"https?://\S*\.\S*"), re.compile(r"www.\S*\.\S*")]
+
+
+def has_url_with_special(text):
+    """The text contains a URL match (the two URL patterns of the property's 'wrap URLs' mechanism) whose span holds a TeX special."""
+    return any(any(c in TEX_SPECIALS for c in m.group(0)) for r in _URL_RES for m in r.finditer(text))
+
+
+def has_dollar_span_with_special(text):
+    """At least two unescaped '$' with a TeX special or a further '$' between the first and the last one."""
+    pos = [i for i, c in enumerate(text) if c == "$" and not (i > 0 and text[i - 1] == "\\")]
+    return len(pos) >= 2 and any(c in TEX_SPECIALS for c in text[pos[0] + 1:pos[-1]])
+
+
 def _classify_roundtrip(text, km, eu):
-    """Attribute a failing round trip to one of the repository's own rules by switching that rule off (diagnosis, not oracle)."""
+    """Recognise the two known families of a failing round trip -- narrowly: an input trait AND the round trip passes once the
+    responsible rule is switched off (diagnosis only, the oracle is t == decode(encode(t))).  Anything else stays unclassified.
+      F12-url-raw-specials   URL match containing one of ~ % & # _ $ { } or a backslash, and passes with enclose_urls=False
+      F13-keepmath-raw-span  two unescaped '$' with a TeX special / further '$' in between and passes with keep_math=False
+    When both traits are present and both rules are on, a rule also counts as responsible if switching it off repairs the round
+    trip while the other rule is off (the text is then an instance of both families; the first that applies names it)."""
     km_on = km is None or km is True
     eu_on = eu is None or eu is True
+    url_trait = eu_on and has_url_with_special(text)
+    math_trait = km_on and has_dollar_span_with_special(text)
 
     def ok(k, u):
         try:
@@ -285,13 +311,16 @@ def _classify_roundtrip(text, km, eu):
         except Exception:
             return False
 
-    if not ok(False, False):
-        return None
-    if km_on and ok(False, eu):
-        return "F13-keepmath-raw-span"
-    if eu_on and ok(km, False):
+    if url_trait and ok(km, False):
         return "F12-url-raw-specials"
-    return "F13-keepmath-raw-span" if km_on else None
+    if math_trait and ok(False, eu):
+        return "F13-keepmath-raw-span"
+    if url_trait and math_trait and ok(False, False):
+        if not ok(False, eu):          # with the math rule off the URL rule alone still breaks it
+            return "F12-url-raw-specials"
+        if not ok(km, False):
+            return "F13-keepmath-raw-span"
+    return None
 
 
 def check_roundtrip(spec):
@@ -383,7 +412,7 @@ def check_contain(spec):
             if fails:
                 if not isinstance(b, MiddlewareErrorBlock):
                     viol.append({"what": where + ": a conversion failure did not yield a MiddlewareErrorBlock", "expected": "MiddlewareErrorBlock",
-                                 "observed": short(b), "finding_key": "F14-empty-message-failure-swallowed" if not str(_exc_text(spec)) else None})
+                                 "observed": short(b)})
                     continue
                 e = b.ignore_error_block
                 if type(e) is not Entry or (inplace and e is not p[1]) or (e.entry_type, e.key, [f.key for f in e.fields]) != p[2]:
@@ -399,8 +428,9 @@ def check_contain(spec):
                     viol.append({"what": where + ": entry without failing value was not returned as the entry", "expected": short(p[2]), "observed": short(b)})
         elif p[0] == "string":
             s = b.ignore_error_block if isinstance(b, MiddlewareErrorBlock) else b
-            if type(s) is not String:
-                viol.append({"what": where + ": @string replaced", "expected": "String or error block holding it", "observed": short(b)})
+            if type(s) is not String or (inplace and s is not p[1]):
+                viol.append({"what": where + ": @string replaced (neither the String nor an error block holding the original String)",
+                             "expected": "String or MiddlewareErrorBlock whose ignore_error_block is it", "observed": short(b)})
             elif type(p[3]) is str and type(s.value) is not str:
                 viol.append({"what": where + ": @string value no longer a str", "expected": "str", "observed": short(s.value),
                              "finding_key": "F10-string-tuple" if isinstance(s.value, tuple) else None})
@@ -409,18 +439,19 @@ def check_contain(spec):
         else:
             if snap_other(b) != p[2]:
                 viol.append({"what": where + ": unrelated block changed", "expected": short(p[2]), "observed": short(snap_other(b))})
-    for key_pref in (None, "F14-empty-message-failure-swallowed"):
-        for v in viol:
-            if v.get("finding_key") == key_pref:
-                return v
+    for v in viol:
+        if v.get("finding_key") is None:
+            return v
     return viol[0] if viol else None
 
 
-def _exc_text(spec):
-    """str() of the exception the stub raises, computed from the spec (KeyError quotes its argument)."""
-    if spec["msg"] is None:
-        return ""
-    return repr(spec["msg"]) if spec["exc"] == "KeyError" else spec["msg"]
+def known_witnesses():
+    """True while the minimal witness of a known finding still fails with that finding_key (False = stale)."""
+    out = {}
+    for key, text in (("F12-url-raw-specials", "http://a.b/~u"), ("F13-keepmath-raw-span", "a $x$ 50% b $y$")):
+        v = check_roundtrip({"tokens": [text], "where": "field", "keep_math": None, "enclose_urls": None})
+        out[key] = bool(v) and v.get("finding_key") == key
+    return out
 
 
 CHECKS = {"C18.ctor": check_ctor, "C18.scope": check_scope, "C18.roundtrip": check_roundtrip,
@@ -540,7 +571,7 @@ def generate(tier, rng):
     # round trip: @string and NameParts on small sets, entry field exhaustively
     for t in tokens_upto(WIDE, 1):
         yield "C18.roundtrip_string", {"tokens": t, "keep_math": None, "enclose_urls": None}, bool(t)
-    for t in tokens_upto(EXH, 3):
+    for t in tokens_upto(EXH_QUICK if quick else EXH, 3):
         yield "C18.roundtrip", {"tokens": t, "where": "field", "keep_math": None, "enclose_urls": None}, bool(t)
     for t in tokens_upto(EXH, 2):
         yield "C18.roundtrip", {"tokens": t, "where": "nameparts", "keep_math": None, "enclose_urls": None, "jr": len(t) == 2}, bool(t)
